@@ -6,6 +6,15 @@ CHECKS = {
  "C01": ("exploration", "world", "model-based stateful PBT (Hypothesis): generated mutator programs vs a plain dict/list model, independent read of the resource after every call",
          "Generated operation programs over all 18 classes, nested handles of any depth, every public mutator; after each call the resource is read without the library and compared with a built-in model. Exploration: says nothing about programs not generated.",
          "Redis/MongoDB/Zarr via call-compatible fakes; == on plain data; key order ignored", "3 C01"),
+ "C02": ("exploration", "world", "model-based stateful PBT (Hypothesis) with a generated outside writer steering (old kind -> new kind) rewrites; reads through roots and retained handles vs plain model",
+         "Generated histories of reads/writes through 1-2 objects and retained child handles interleaved with out-of-band rewrites of any position to any JSON kind; every outcome is compared with the model of the resource at call time. Exploration over generated histories; the 4x4 kind-pair matrix of non-trivial reads is reported and must be full in the thorough tier.",
+         "handles detached by the wording of C02 are not checked; root-kind changes not generated; fakes for Redis/MongoDB/Zarr", "3 C02"),
+ "C03": ("exploration", "world", "differential PBT (Hypothesis): every call of the MutableMapping/MutableSequence surface on the synced object vs the same call on a built-in dict/list",
+         "Differential testing against built-in dict/list over generated programs covering mutators, reads, mixins, slices, bad indices/keys and all six comparison operators with plain, near-miss, synced (same/other class) and non-sequence operands, at any depth, all 18 classes.",
+         "documented deviations encoded once in the model; exception families compared; key order ignored", "3 C03"),
+ "C04": ("exploration", "world", "model-based stateful PBT (Hypothesis): sequential histories over 2-3 objects on one resource and retained nested handles vs one shared plain model",
+         "Generated sequential histories that alternate between several collection objects and stale nested handles on one resource; all must behave as one plain structure (outcomes, resource after every mutator, final reads).",
+         "spec-detached handles unused; fakes for Redis/MongoDB/Zarr", "3 C04"),
 }
 
 def main():
